@@ -255,7 +255,9 @@ def batch(args):
             futs.append((pool.submit({"t": "run", "seed": s, "cfg": tier["cfg"]}, "A"), "E"))
         done = 0
         last_print = time.time()
-        for fut, role in futs:
+        for fi in range(len(futs)):
+            fut, role = futs[fi]
+            futs[fi] = None  # results are aggregated, not kept: memory stays flat in long batches
             while True:
                 try:
                     res = fut.result(timeout=30)
